@@ -182,6 +182,21 @@ def run_case(c, stats):
         call(A.concatenate, B)
         call(A.kleene_star)
         call(B.concatenate, A)
+    if (len(c["a"]["trans"]) + len(ra.states)) % 4 == 0:
+        # a second operation on each result: what a result says about itself (alphabet, states, start and final
+        # states) is what the next operation works from
+        firsts = [lambda: A.get_intersection(B), A.get_complement, lambda: A.get_difference(B), A.reverse]
+        if c["token"]:
+            firsts += [lambda: A.union(B), lambda: A.concatenate(B), A.kleene_star]
+        stats.cls("second_operation")
+        for f in firsts:
+            ok, r = call(f)
+            if not ok or len(r.states) > 8 or r.get_number_transitions() > 24:
+                continue
+            call(r.get_complement)
+            call(r.reverse)
+            call(r.get_intersection, A)
+            call(B.get_difference, r)
     if c["a"].get("edits"):
         # the receiver is edited through its public mutators and the operations are asked again (same object)
         gfa.apply_edits(A, c["a"])
